@@ -17,6 +17,8 @@ import (
 	"time"
 
 	"github.com/gorilla/mux"
+	"google.golang.org/grpc/codes"
+	"google.golang.org/grpc/status"
 	f_log "github.com/transparency-dev/formats/log"
 	whttp "github.com/transparency-dev/witness/client/http"
 	ihttp "github.com/transparency-dev/witness/internal/http"
@@ -93,6 +95,18 @@ func scenarioHTTPAPI(t *traceWriter, rng *rand.Rand) {
 				}
 				return ""
 			}
+			// a failing read may carry a gRPC status code: the handler maps codes to HTTP statuses (httpForCode)
+			rcode := "plain"
+			ctl.readErr = nil
+			if faults == "g" {
+				names := []string{"plain", "AlreadyExists", "NotFound", "FailedPrecondition", "InvalidArgument", "Unauthenticated", "Internal", "Unavailable", "PermissionDenied"}
+				cs := []codes.Code{0, codes.AlreadyExists, codes.NotFound, codes.FailedPrecondition, codes.InvalidArgument, codes.Unauthenticated, codes.Internal, codes.Unavailable, codes.PermissionDenied}
+				k := rng.Intn(len(names))
+				rcode = names[k]
+				if k > 0 {
+					ctl.readErr = status.Error(cs[k], "injected storage failure with a status code")
+				}
+			}
 			ctl.setFaults(faults)
 			defer ctl.setFaults("")
 			ids := []string{}
@@ -155,7 +169,7 @@ func scenarioHTTPAPI(t *traceWriter, rng *rand.Rand) {
 				default:
 					cres = "err"
 				}
-				t.line("A %s kind=get id=%s faults=%s states=%s => status=%d body=%s client=%s", s.id, hx([]byte(id)), faults, states, status, hx(body), cres)
+				t.line("A %s kind=get id=%s faults=%s rcode=%s states=%s => status=%d body=%s client=%s", s.id, hx([]byte(id)), faults, rcode, states, status, hx(body), cres)
 			}
 			var resp *http.Response
 			var err error
